@@ -111,6 +111,9 @@ def jobs(tier, seed):
             # (score, group); thresholds are +-inf themselves in fitted rules, input validation admits such scores
             js.append({"id": f"thr-{''.join(op).replace('>', 'g').replace('<', 'l')}-{'ign' if ignore else 'noign'}-inf", "kind": "thr", "ops": list(op),
                        "ignore": ignore, "rows": 3, "inf": 1 if (oi + ignore) % 2 else -1})
+    # group labels of mixed Python types (1 and 'a' in one list): the batch decides how numpy coerces them
+    for ignore in (False, True):
+        js.append({"id": f"thr-mixedlabels-{'ign' if ignore else 'noign'}", "kind": "thrmixed", "ops": [">", ">", ">", ">"], "ignore": ignore})
     js.append({"id": "seeds", "kind": "seeds", "nseeds": 3 if tier == "quick" else 30, "seed": seed})
     return js
 
@@ -135,6 +138,8 @@ def run_job(job, deadline):
         _eg_inplace(acc, job, deadline)
     elif job["kind"] == "thr":
         _thr(acc, job, deadline)
+    elif job["kind"] == "thrmixed":
+        _thr_mixed(acc, job, deadline)
     else:
         _seeds(acc, job)
     return acc.result()
@@ -314,6 +319,41 @@ def _thr(acc, job, deadline):
     acc.explore(run, on_ok, deadline=deadline, max_paths=6000 if job["rows"] == 4 else 1200)
 
 
+def _mixed_state(job, mk):
+    """the state a real fit reaches from sensitive_features=[1, 'a', 1, 'a', ...]: numpy turns the mixed list into strings, the rules are keyed '1' and 'a'"""
+    d = _thr_state(job, mk)
+    return {"1": d["ga"], "a": d["gb"]}
+
+
+def _thr_mixed(acc, job, deadline):
+    """the probability of a row depends only on its score and group: the SAME row (score s0, group 1) queried next to a row of group 'a' and next
+    to another row of group 1 must get the same probability"""
+    from fairlearn.postprocessing._interpolated_thresholder import InterpolatedThresholder
+
+    def run():
+        d = _mixed_state(job, lambda name, lo, hi: real(name, lo, hi))
+        s = [real(f"s{i}", 0, 1) for i in range(2)]
+        it = InterpolatedThresholder(tc.Scorer(s), d, prefit=True, predict_method="predict_proba").fit(None, None)
+        X = np.arange(2).reshape(-1, 1)
+        try:
+            a = np.asarray(it._pmf_predict(X, sensitive_features=[1, "a"]), dtype=object)
+            b = np.asarray(it._pmf_predict(X, sensitive_features=[1, 1]), dtype=object)
+        except Exception as e:
+            return e
+        return s, a, b
+
+    def on_ok(ctx, out):
+        if isinstance(out, Exception):
+            acc.exception_cex(ctx, out, signature="thr:mixed_label_types:exception")
+            return
+        s, a, b = out
+        acc.reach(ctx)
+        acc.check(ctx, "probability_of_a_row_independent_of_the_other_rows_in_the_batch", O.same(a[0, 1], b[0, 1]), signature="thr:mixed_label_types")
+        acc.canary(ctx, "canary_thrmixed", O.same(a[0, 1], term(a[0, 1]) + 2))
+
+    acc.explore(run, on_ok, deadline=deadline, max_paths=600)
+
+
 def _seeds(acc, job):
     """real RNG: same integer seed -> identical predictions, fitted state untouched (seeds sampled, not quantified)"""
     rnd = random.Random(job["seed"])
@@ -435,6 +475,17 @@ def replay(cex):
     # thresholder
     from fairlearn.postprocessing._interpolated_thresholder import InterpolatedThresholder
 
+    if job["kind"] == "thrmixed":
+        d = _mixed_state(job, lambda name, lo, hi: f(name))
+        s = [f(f"s{i}") for i in range(2)]
+        it = InterpolatedThresholder(tc.Scorer(s), d, prefit=True, predict_method="predict_proba").fit(None, None)
+        X = np.arange(2).reshape(-1, 1)
+        a = np.asarray(it._pmf_predict(X, sensitive_features=[1, "a"]), dtype=float)
+        b = np.asarray(it._pmf_predict(X, sensitive_features=[1, 1]), dtype=float)
+        bad = abs(a[0, 1] - b[0, 1]) > 1e-9
+        return {"reproduced": bool(bad), "signature": "thr:mixed_label_types",
+                "detail": f"row 0 (score {s[0]}, group 1) gets P(1)={a[0, 1]} when queried with sensitive_features=[1, 'a'] but {b[0, 1]} with [1, 1] "
+                          f"(rules keyed by the strings '1' and 'a', as a fit on a mixed-type label list produces) | state={ {k: mdl[k] for k in mdl} }"}
     rows = job["rows"]
     sf = (["ga", "ga", "gb", "gb"])[:rows] if rows == 4 else ["ga", "ga", "gb"]
     d = _thr_state(job, lambda name, lo, hi: f(name))
